@@ -17,7 +17,7 @@ CHECKS = {
    note="next/prev are only issued on a valid iterator (they assert validity; every caller in the repository checks first). Trusted: MemFs, model."),
  "C05": dict(cat="exploration", ref="4 (C05)", technique="generated concurrent programs under generated forced schedules (hook points) and natural schedules; recorded histories decided by a complete per-key linearizability search",
    text="2-4 client threads run generated put/delete/batch/get/flush programs on a 512-1500 byte memtable while 1-4 generated directives hold a chosen thread (client or background) at a chosen hook point until the others finish; every operation is stamped with a global counter and each key's history, closed by a quiescent final read, is checked by a complete Wing-Gong/Lowe search (self-tested before each run).",
-   note="Windows that do not cross a hook point are only reached by natural schedules. Group-commit error outcomes under faults are covered by C08 (single client) only; per-writer outcomes under faults with several writers are not explored."),
+   note="Windows that do not cross a hook point are only reached by natural schedules. A third campaign injects one sticky WAL-write failure under forced group commits and treats writes that returned Err as indeterminate operations in the search."),
  "C06": dict(cat="exploration", ref="4 (C06)", technique="generated writer/reader programs under forced schedules holding a writer inside apply; invariant: each batch group is uniform at every read point",
    text="Writers apply whole-group batches (also batches writing each key twice, and whole-group deletes) while generated directives hold them before the WAL append, after it, between memtable insertions and after the last insertion; readers keep taking snapshots, iterators and plain gets meanwhile. Every sequence-consistent read must see each group uniform (all keys the same batch, or all absent), counters never go backwards for a reader, and no read may return a value that the same batch overwrites.",
    note="Holds are bounded by a 15-90 ms timeout (queued writers cannot finish while the head writer is held); the timeout affects coverage only."),
